@@ -29,7 +29,7 @@ ASSUMPTIONS = [
     "as C01 (no HP-based filters; third-party determinism trusted)",
     "the RL scheduler is limited to one session by the quantifier and takes no part in cuts",
 ]
-REQUIRED_COUNTERS = {"folders_not_spelled_canonically": 40, "continued_in_another_process": 12, "many_parameter_cases": 4, "saving_folder_used_before_by_another_run": 20, "tiny_grid_cases": 5, "segmented_runs": 150, "restore_cuts": 100, "plain_cuts": 100, "cuts_before_stateful": 80, "restore_chains": 10}
+REQUIRED_COUNTERS = {"folders_not_spelled_canonically": 30, "continued_in_another_process": 12, "many_parameter_cases": 4, "saving_folder_used_before_by_another_run": 20, "tiny_grid_cases": 5, "segmented_runs": 150, "restore_cuts": 100, "plain_cuts": 100, "cuts_before_stateful": 80, "restore_chains": 10}
 REQUIRED_COUNTERS.update({f"cut_before_{k}": 1 for k in G.SAMPLER_KINDS})
 SHARDS = {"quick": 16, "thorough": 16}
 SHARD_WATCHDOG = {"quick": 1500, "thorough": 10800}
